@@ -50,16 +50,17 @@ Record frs := {
   reopen_ok : bool;                    (* the last reopen served a batch-prefix state *)
   base0 : llsnap;                      (* lower level the current incarnation started from *)
   held : list (nat * snapshot);
+  held_ref : list (nat * (list segment * llsnap));  (* per held snapshot: the batches and the lower level it was taken over *)
   is_open : bool
 }.
 
 Definition finit (c : cfg) (k : llkind) : frs :=
   {| st := init []; kind := k; conf := c; pend := None; store_ll := []; hist := [];
-     all_hist := []; reopen_ok := true; base0 := []; held := []; is_open := true |}.
+     all_hist := []; reopen_ok := true; base0 := []; held := []; held_ref := []; is_open := true |}.
 
 Definition set_st (r : frs) (s : cstate) : frs :=
   {| st := s; kind := kind r; conf := conf r; pend := pend r; store_ll := store_ll r;
-     hist := hist r; all_hist := all_hist r; reopen_ok := reopen_ok r; base0 := base0 r; held := held r; is_open := is_open r |}.
+     hist := hist r; all_hist := all_hist r; reopen_ok := reopen_ok r; base0 := base0 r; held := held r; held_ref := held_ref r; is_open := is_open r |}.
 
 Definition lift (r : frs) (o : option cstate) : option frs :=
   match o with Some s => Some (set_st r s) | None => None end.
@@ -96,7 +97,7 @@ Definition fstep (r : frs) (l : hlabel) : option frs :=
   | HBatch b =>
       match step fm0 c (st r) (LBatch b) with
       | Some s => Some {| st := s; kind := kind r; conf := c; pend := pend r; store_ll := store_ll r;
-                          hist := hist r ++ [b]; all_hist := all_hist r ++ [b]; reopen_ok := reopen_ok r; base0 := base0 r; held := held r; is_open := true |}
+                          hist := hist r ++ [b]; all_hist := all_hist r ++ [b]; reopen_ok := reopen_ok r; base0 := base0 r; held := held r; held_ref := held_ref r; is_open := true |}
       | None => None
       end
   | HIngest => lift r (step fm0 c (st r) LIngest)
@@ -106,7 +107,7 @@ Definition fstep (r : frs) (l : hlabel) : option frs :=
       match step fm0 c (st r) LPBegin, do_ll_update r ch with
       | Some s, Some l' =>
           Some {| st := s; kind := kind r; conf := c; pend := Some l'; store_ll := l';
-                  hist := hist r; all_hist := all_hist r; reopen_ok := reopen_ok r; base0 := base0 r; held := held r; is_open := true |}
+                  hist := hist r; all_hist := all_hist r; reopen_ok := reopen_ok r; base0 := base0 r; held := held r; held_ref := held_ref r; is_open := true |}
       | _, _ => None
       end
   | HPBeginFail =>
@@ -119,7 +120,7 @@ Definition fstep (r : frs) (l : hlabel) : option frs :=
       | Some l' =>
           match step fm0 c (st r) (LPPublish l') with
           | Some s => Some {| st := s; kind := kind r; conf := c; pend := None; store_ll := store_ll r;
-                              hist := hist r; all_hist := all_hist r; reopen_ok := reopen_ok r; base0 := base0 r; held := held r; is_open := true |}
+                              hist := hist r; all_hist := all_hist r; reopen_ok := reopen_ok r; base0 := base0 r; held := held r; held_ref := held_ref r; is_open := true |}
           | None => None
           end
       | None => None
@@ -129,13 +130,15 @@ Definition fstep (r : frs) (l : hlabel) : option frs :=
       match step fm0 c (st r) LSnap with
       | Some s => Some {| st := s; kind := kind r; conf := c; pend := pend r; store_ll := store_ll r;
                           hist := hist r; all_hist := all_hist r; reopen_ok := reopen_ok r; base0 := base0 r;
-                          held := (id, cur_snapshot (st r)) :: held r; is_open := true |}
+                          held := (id, cur_snapshot (st r)) :: held r;
+                          held_ref := (id, (hist r, base0 r)) :: held_ref r; is_open := true |}
       | None => None
       end
   | HSnapClose id =>
       Some {| st := st r; kind := kind r; conf := c; pend := pend r; store_ll := store_ll r;
               hist := hist r; all_hist := all_hist r; reopen_ok := reopen_ok r; base0 := base0 r;
-              held := filter (fun p => negb (Nat.eqb (fst p) id)) (held r); is_open := is_open r |}
+              held := filter (fun p => negb (Nat.eqb (fst p) id)) (held r);
+              held_ref := filter (fun p => negb (Nat.eqb (fst p) id)) (held_ref r); is_open := is_open r |}
   | HClose ch =>
       let sl := match ch with
                 | Some c' => match do_ll_update r c' with Some l' => Some l' | None => None end
@@ -144,7 +147,7 @@ Definition fstep (r : frs) (l : hlabel) : option frs :=
       match sl, step fm0 c (st r) LClose with
       | Some l', Some s =>
           Some {| st := s; kind := kind r; conf := c; pend := None; store_ll := l';
-                  hist := hist r; all_hist := all_hist r; reopen_ok := reopen_ok r; base0 := base0 r; held := held r; is_open := false |}
+                  hist := hist r; all_hist := all_hist r; reopen_ok := reopen_ok r; base0 := base0 r; held := held r; held_ref := held_ref r; is_open := false |}
       | _, _ => None
       end
   | HReopen =>
@@ -154,7 +157,7 @@ Definition fstep (r : frs) (l : hlabel) : option frs :=
               store_ll := store_ll r; hist := [];
               all_hist := match n with Some i => firstn i (all_hist r) | None => all_hist r end;
               reopen_ok := match n with Some _ => true | None => false end;
-              base0 := store_ll r; held := held r; is_open := true |}
+              base0 := store_ll r; held := held r; held_ref := held_ref r; is_open := true |}
   end.
 
 (* ---- comparison ---------------------------------------------------------- *)
@@ -204,16 +207,23 @@ Inductive mismatch :=
 | MHeld (id : nat) | MStore
 | SpecGets | SpecIter | SpecCGet | SpecHeld (id : nat) | SpecReopenPrefix | SpecZeroGauges.
 
+(* C07: what a full compaction must leave: at most one segment, keys strictly
+   ascending (every key once), no deletion marker *)
+Definition full_shape_ok (f : list segment) : bool :=
+  Nat.leb (length f) 1 &&
+  forallb (fun s => sortedb s && forallb (fun e => match snd e with ODel => false | _ => true end) s) f.
+
 Definition flag (b : bool) (m : mismatch) : list mismatch := if b then [] else [m].
 
 (* reference content: ref over the lower level this incarnation started from *)
-Definition ref_now (r : frs) : bytes -> value := ref_from fm0 (llv fm0 (base0 r)) (hist r).
-
-Definition ref_iter (r : frs) : list (bytes * value) :=
-  let ks := all_keys (hist r ++ base0 r) in
-  fold_right (fun k acc => match ref_now r k with
+Definition ref_of (h : list segment) (b0 : llsnap) : bytes -> value := ref_from fm0 (llv fm0 b0) h.
+Definition ref_iter_of (h : list segment) (b0 : llsnap) : list (bytes * value) :=
+  let ks := all_keys (h ++ b0) in
+  fold_right (fun k acc => match ref_of h b0 k with
                            | Some v => (k, Some v) :: acc
                            | None => acc end) [] ks.
+Definition ref_now (r : frs) : bytes -> value := ref_of (hist r) (base0 r).
+Definition ref_iter (r : frs) : list (bytes * value) := ref_iter_of (hist r) (base0 r).
 
 (* model vs implementation, and implementation vs specification *)
 Definition fcheck (r : frs) (univ : list bytes) (o : fobs) : list mismatch :=
@@ -247,6 +257,14 @@ Definition fcheck (r : frs) (univ : list bytes) (o : fobs) : list mismatch :=
            flag (list_eqb kv_eqb (gets_of (snap_get fm0 hs) univ) (fst (snd h))
                  && list_eqb kv_eqb (snap_iter hs) (snd (snd h))) (MHeld (fst h))
        | None => [MHeld (fst h)]
+       end) (o_held o))
+  (* the specification: a held snapshot still reads the reference of the moment it was taken *)
+  ++ concat (map (fun h =>
+       match List.find (fun p => Nat.eqb (fst p) (fst h)) (held_ref r) with
+       | Some (_, (hh, hb)) =>
+           flag (list_eqb kv_eqb (gets_of (ref_of hh hb) univ) (fst (snd h))
+                 && list_eqb kv_eqb (ref_iter_of hh hb) (snd (snd h))) (SpecHeld (fst h))
+       | None => [SpecHeld (fst h)]
        end) (o_held o))
   (* the specification: reads are the reference *)
   ++ flag (list_eqb kv_eqb (gets_of (ref_now r) univ) (o_gets o)) SpecGets
